@@ -10,6 +10,7 @@ import (
 	"fmt"
 	"net"
 	"os"
+	"runtime"
 	"strings"
 	"time"
 
@@ -62,6 +63,23 @@ func ErrClass(err error) int {
 		return ERangeSize
 	}
 	msg := err.Error()
+	// ipError / portError embed the cause without an Unwrap method: fall back to the message
+	switch msg {
+	case scan.ErrPortRange.Error():
+		return EPortRange
+	case scan.ErrSubnet.Error():
+		return ESubnet
+	case scan.ErrIP.Error():
+		return EIP
+	case scan.ErrPort.Error():
+		return EPort
+	case scan.ErrJSON.Error():
+		return EJSON
+	case bufio.ErrTooLong.Error():
+		return ETooLong
+	case scan.VerifErrRangeSize().Error():
+		return ERangeSize
+	}
 	switch {
 	case strings.HasPrefix(msg, "invalid cyclic group"):
 		return EGroup
@@ -339,4 +357,14 @@ func Covered(ls []ExclLine, x uint32) bool {
 		}
 	}
 	return false
+}
+
+// Settle waits until the goroutines of earlier cases are gone (a cancelled port generator keeps drawing
+// from the global math/rand source while it winds down, which would disturb the next seeded case).
+func Settle(base int) {
+	deadline := time.Now().Add(3 * time.Second)
+	for runtime.NumGoroutine() > base && time.Now().Before(deadline) {
+		runtime.Gosched()
+		time.Sleep(20 * time.Microsecond)
+	}
 }
